@@ -36,6 +36,8 @@ def main():
     if props is None:
         p = meta["property"]
         props = p if isinstance(p, list) else [p]
+        import re as _re
+        props = [_re.match(r"C\d+", str(x)).group(0) for x in props if _re.match(r"C\d+", str(x))]
     st = sh(["git", "-C", REPO, "status", "--porcelain", "--untracked-files=no"]).stdout.strip()
     if st:
         print("refusing: /repo has uncommitted changes:\n" + st)
